@@ -9,6 +9,7 @@ NOTE = ('Bounded model checking: integer widths exact, collection sizes/unrollin
 CLAIMS = {
  'C01': 'Every pair entry point (swap native/cw20, provide first/next, withdraw, collect, update fees) is executed symbolically from an arbitrary invariant-satisfying state for each native/cw20 configuration; z3 shows solvency, pro-rata mint/refund, LP-value monotonicity and the minimum-liquidity lock for all 128-bit amounts and all valid fee triples. One inductive step covers histories of any length.',
  'C02': 'helpers::compute_swap (constant-product arm) with fully symbolic reserves, offer and fee triple (validated by the real PoolFee::is_valid): gross-amount identity, exact fee split, proceeds < ask reserve, totality outside the listed known defect, and (thorough) the two-swap round trip.',
+ 'C04': 'REDUCED SCOPE (D uninterpreted): compute_amp_factor function-level (range, linearity, target after stop) and update_config(ramp) with fully symbolic heights/amps; for all six swap directions the offer/ask/unswapped selection by asset identity, dy = dest - y - 1 bound, solvency and fee bookkeeping; LP mint = S(D1-D0)/D0, initial mint D-3000 with 3000 locked, pro-rata withdraw. D and y kernels are uninterpreted functions of their inputs.',
  'C05': 'Every vault entry point that moves value (deposit first/next, withdraw, collect, fee change) and the flash-loan bracket (after_trade from an arbitrary state) is executed symbolically for native and cw20 vaults; z3 shows pro-rata mint/payout, share-price monotonicity, the minimum-liquidity lock and deposit-then-withdraw <= deposit for all 128-bit values and all valid fee triples.',
  'C06': 'flash_loan message order/content, callback authorisation with a symbolic sender, after_trade from an ARBITRARY post-callback state (the adversary is any balance/ledger), exact fee split, payback query vs after_trade (exact suffices, one less fails), deposit guard during loans, a depth-2 nested-loan history with arbitrary repayments, and the vault router next_loan / complete_loan obligations.',
  'C07': 'Per-step fee-ledger identities: swap bookkeeping against a symbolic SwapComputation (pending ledger, all-time counters, burn message, nothing else moves), collect (exact amounts, recipient, carve-out for the sub-threshold defect), ledgers untouched by deposits/withdrawals; vault after_trade / collect / other entry points.',
